@@ -168,6 +168,13 @@ from . import exprgen as XG  # noqa: E402
 import os  # noqa: E402
 
 GEN_DIR = os.path.join(B.CACHE, "gen")
+LAST_EXPRS = {}   # scalar -> expression texts of the programs of this run
+
+
+def expr_post(res, tier, seed):
+    cov = res.extra.setdefault("coverage", {})
+    cov["programs"] = sum(len(v) for v in LAST_EXPRS.values())
+    cov["expressions_by_scalar"] = {k: v[:500] for k, v in LAST_EXPRS.items()}
 
 
 def expr_runs(tier, seed, flavour="plain", scalars=("Q", "d"), nrandom=None,
@@ -180,6 +187,10 @@ def expr_runs(tier, seed, flavour="plain", scalars=("Q", "d"), nrandom=None,
         tus = XG.programs(seed, nrandom, exact, per_tu, GEN_DIR,
                           "q" if exact else "f")
         for path, h, texts in tus:
+            LAST_EXPRS.setdefault(sc, [])
+            for t in texts:
+                if t not in LAST_EXPRS[sc]:
+                    LAST_EXPRS[sc].append(t)
             base = os.path.basename(path)[len("gen_expr_"):-len(".cpp")]
             runs.append(RunSpec("expr", sc, flavour, cases, source=path,
                                 name="expr-" + base, shards=2))
@@ -229,6 +240,7 @@ reg(Spec(
     assumptions=[DYADIC, MODEL, "expression types are sampled (catalogue + "
                  "random set per seed), not enumerated; operand orders 0..3"],
     evaluations="apply",
+    post=expr_post,
     technique="runtime monitor over generated programs: each expression is "
               "compiled against the real headers and its results compared "
               "with an interpreter of the same AST over the reference model"))
@@ -260,6 +272,7 @@ reg(Spec(
                  "generated translation unit, spline order pairs (0,1) (2,0) "
                  "(1,3) (3,2)"],
     evaluations="bilinear",
+    post=expr_post,
     technique="runtime monitor over generated programs: exact-integral "
               "oracle plus metamorphic relations through the library"))
 
@@ -282,6 +295,7 @@ reg(Spec(
              ["linear:outsize:%d" % i for i in range(1, 9)],
     assumptions=[DYADIC, MODEL],
     evaluations=["linear", "bilinear:metamorphic"],
+    post=expr_post,
     technique="runtime monitor over generated programs: exact-integral "
               "oracle plus the bilinear/linear consistency relation"))
 
